@@ -538,6 +538,21 @@ def replay_ei(payload):
     want_c = ['idle' if f <= 0.2 else ('climb' if f > 0.6 else 'approach') for f in ff]
     if [str(c) for c in cats] != want_c:
         bad.append(dict(what='thrust category', observed=[str(c) for c in cats], required=want_c))
+    # the counter-model's calibration flows (any order) plus a fixed non-monotone set: the clauses of the thrust-category unit
+    m = (payload or {}).get('model', {}) or {}
+    sets = [((0.9, 0.6, 0.3, 0.1), [0.2, 0.4, 0.5, 0.7, 0.8, 1.0]), ((2.08, 1.81, 1.68, 1.99), [1.5, 1.7, 1.78, 1.9, 2.0, 2.5])]
+    try:
+        sets.insert(0, (tuple(float(m['ff_cal_' + k]) for k in ('IDLE', 'APPROACH', 'CLIMB', 'TAKEOFF')), [float(v) for v in m['ff_eval']]))
+    except (KeyError, TypeError, ValueError):
+        pass
+    for cal, flows in sets:
+        tv = ThrustModeValues(*cal)
+        low, high = (cal[0] + cal[1]) / 2, (cal[1] + cal[2]) / 2
+        got = [str(c) for c in get_thrust_cat_cruise(np.array(flows, dtype=float), tv).data]
+        for f, g in zip(flows, got):
+            want_g = 'idle' if f < min(low, high) else ('climb' if f > max(low, high) else ('approach' if low < f < high else None))
+            if want_g is not None and g != want_g:
+                bad.append(dict(what='thrust category', input=dict(calibration=cal, fuel_flow=f), observed=g, required=want_g))
     w = get_SLS_equivalent_fuel_flow(np.array([1.0]), np.array([30000.0]), np.array([230.0]), np.array([0.78]))
     want = 0.5 * (230.0 / 288.15) ** 3.8 / (30000.0 / 101325.0) * math.exp(0.2 * 0.78 ** 2)
     if not math.isclose(float(w[0]), want, rel_tol=1e-12):
